@@ -94,7 +94,7 @@ func (c *chatHandler) handleLegacyCommand(packet *chat.LegacyChat) error {
 		if !hasRun {
 			return (&chat.Builder{
 				Protocol: c.player.Protocol(),
-				Message:  packet.Message,
+				Message:  "/" + commandToRun,
 				Sender:   c.player.ID(),
 			}).ToServer()
 		}
